@@ -2435,6 +2435,13 @@ hsStateDetermined:
             fragLen += *c; c++;
             if (fragLen != hsLen)
             {
+                if (fragLen > (uint32) (end - c))
+                {
+                    /* The fragment data must be inside this record */
+                    ssl->err = SSL_ALERT_DECODE_ERROR;
+                    psTraceErrr("Invalid length of handshake fragment\n");
+                    return MATRIXSSL_ERROR;
+                }
 /*
                 Have a fragmented message here.  Allocate if first time
                 seen and assign msn.  Can only deal with single fragmented
